@@ -1,7 +1,7 @@
 (* C12 entry points of the extracted model, specification and oracle. Written to coq/tt_c12.ml. *)
 From Coq Require Extraction ExtrOcamlBasic ExtrOcamlString.
 From Coq Require Import List Ascii String.
-Require Import TT.Model.Str TT.Spec.TsLex TT.Spec.TsModule TT.Spec.TsObs TT.Model.Pipeline TT.Model.Events TT.Spec.C12Spec.
+Require Import TT.Model.Str TT.Spec.TsLex TT.Spec.TsModule TT.Spec.TsObs TT.Model.Pipeline TT.Model.Events TT.Spec.C12Spec TT.Spec.C12Uni.
 Import ListNotations.
 
 (* token stream cut before every `export`: the header chunk, then one chunk per listener *)
@@ -29,7 +29,7 @@ Definition c12_run (p : project) (events_ts index_ts : option str) : sx :=
        SL (map (fun f => sx_evs (file_events f)) (p_files p));
        SL [sx_bool (o_generated m); sx_chunks (o_events_ts m); sx_bool (o_index_reexports_events m)];
        SL [sx_chunks events_ts; sx_opt sx_bool (reexports_events index_ts)];
-       sx_complaints p (oracle_m (p_mappings p) ss events_ts index_ts);
+       sx_complaints p (oracle_u (p_mappings p) ss events_ts index_ts);   (* oracle_m + ECMAScript identifier code points *)
        sx_complaints p (oracle_m (p_mappings p) ss (o_events_ts m) (if o_generated m then m_index else None));
        SL (map (fun s => SL [SA (s_name s); sx_ty (expected_payload_m (p_mappings p) (s_payload s) (s_env s))]) ss);
        SL (map (fun f => SL (map (fun e => SL [SA (fst e); SA (payload_ts (snd e))]) (map_events (p_mappings p) (file_events f)))) (p_files p)) ].
